@@ -9,6 +9,7 @@
 -/
 import DdnnfVerif.Model.Dispatch
 import DdnnfVerif.Model.ClauseCache
+import DdnnfVerif.Model.MarkState
 open Ddnnf
 
 structure St where
@@ -17,6 +18,7 @@ structure St where
   nodes : List NType := []
   cursor : Cursor := []
   cc : CC.Cache := {}
+  ms : MS.St := { ns := #[], md := [] }
 
 def parseInts (ws : List String) : List Int := ws.filterMap String.toInt?
 def parseNats (ws : List String) : List Nat := ws.filterMap String.toNat?
@@ -51,7 +53,7 @@ def step (st : St) (line : String) : St × Option String :=
   | ["F"] => ({ st with building := st.building.push .fls }, none)
   | ["end"] =>
       let nodes := st.building.toList
-      ({ st with nodes := nodes }, some (circuitLine nodes st.n))
+      ({ st with nodes := nodes, ms := MS.initSt nodes (fun _ => 0) }, some (circuitLine nodes st.n))
   | "q" :: "enum" :: amount :: args =>
       let (cur, res) := enumerate st.nodes st.n st.cursor (parseInts args) (amount.toNat?.getD 0)
       ({ st with cursor := cur }, some ("enum " ++ (match res with | some cs => fmtCfgs cs | none => "none")))
@@ -71,6 +73,11 @@ def step (st : St) (line : String) : St × Option String :=
         | .err c (some t) => if norm t == impl then "agree" else s!"DISAGREE model={t}"
         | .err c none => if impl.startsWith s!"E{c} " then "agree" else s!"DISAGREE model=E{c} ?"
       ({ st with cursor := cur }, some ("msg " ++ verdict))
+  | "q" :: "ms" :: args =>
+      -- `q ms lits..`: execute_query on the persistent scratch state; prints the answer and every node's temp
+      let (s', r) := MS.execQuerySt st.nodes st.n st.ms (parseInts args)
+      let temps := ",".intercalate ((List.range st.nodes.length).map fun i => toString (MS.tempOf s' i))
+      ({ st with ms := s' }, some s!"ms {r} | {temps} | clean={decide (s'.md = []) && (List.range st.nodes.length).all fun i => !MS.markerOf s' i}")
   | "q" :: "ccinit" :: rest =>
       -- `q ccinit n | c1 / c2 / ..`
       let (n, cs) := parseState rest
